@@ -41,7 +41,9 @@ namespace details {
         read,
         write,
         compare_128bit_uuid,
-        compare_value
+        compare_value,
+        // checks, whether a write to the attribute would be permitted, without writing anything
+        check_write
     };
 
     struct attribute_access_arguments
@@ -125,15 +127,18 @@ namespace details {
             };
         }
 
-        static constexpr attribute_access_arguments check_write( void* server )
+        static attribute_access_arguments check_write(
+            const client_characteristic_configuration& cc,
+            const connection_security_attributes& cs,
+            void* server )
         {
             return attribute_access_arguments{
-                attribute_access_type::write,
+                attribute_access_type::check_write,
                 0,
                 0,
                 0,
-                client_characteristic_configuration(),
-                connection_security_attributes(),
+                cc,
+                cs,
                 server
             };
         }
